@@ -18,7 +18,7 @@ Lemma item_step_pres acc i h' m' : m_item_step acc i = Ok (h', m') ->
   exists h m, acc = Ok (h, m) /\ same h h'.
 Proof.
   unfold m_item_step. destruct acc as [[h m]|t|t]; cbn [obind fst snd]; try discriminate.
-  destruct (m_cond h (i_uid i) (i_cond i)) as [c|t|t]; cbn [obind]; try discriminate.
+  destruct (m_cond h (i_uid i) (m_rids m) (i_cond i)) as [c|t|t]; cbn [obind]; try discriminate.
   intros H. exists h, m. split; [reflexivity|].
   destruct c; [|inversion H; subst; apply same_refl].
   destruct (i_kind i); try (inversion H; subst; apply same_refl).
@@ -687,7 +687,7 @@ Definition w_prog_stale : list op := [OpTree w_sum; OpInit false (Some 2%nat) FS
 Definition w_prog_fresh : list op := [OpTree w_sum; OpTree w_sum; OpConvert false (Some 3%nat) FState].
 (* the witness of D30: convert() for format test, then convert_rule() for format state *)
 Definition w_defO (v : str) : pdef :=
-  {| d_items := [ {| i_uid := 2; i_id := v; i_kind := KAddCond [111] v; i_cond := None |} ]; d_post := []; d_fin := [];
+  {| d_items := [ {| i_uid := 2; i_id := v; i_kind := KAddCond [111] v; i_cond := CNone |} ]; d_post := []; d_fin := [];
      d_vars := []; d_prio := 0%Z; d_name := None |}.
 Definition w_prog_fmt : list op := [OpConvert false (Some 0%nat) FTest; OpRun false FState].
 
@@ -712,9 +712,9 @@ Lemma history_format_refuted :
     <> aexec (map adef defs) tn (apipe_of bkd) (by_fmt (apipe_of od) (apipe_of ot) (apipe_of os)) rules prog.
 Proof.
   exists [w_defE (Some [97])], [], (w_defE None), (w_defE None),
-         {| d_items := [ {| i_uid := 2; i_id := [116]; i_kind := KAddCond [111] [116]; i_cond := None |} ]; d_post := []; d_fin := [];
+         {| d_items := [ {| i_uid := 2; i_id := [116]; i_kind := KAddCond [111] [116]; i_cond := CNone |} ]; d_post := []; d_fin := [];
             d_vars := []; d_prio := 0%Z; d_name := None |},
-         {| d_items := [ {| i_uid := 3; i_id := [115]; i_kind := KAddCond [111] [115]; i_cond := None |} ]; d_post := []; d_fin := [];
+         {| d_items := [ {| i_uid := 3; i_id := [115]; i_kind := KAddCond [111] [115]; i_cond := CNone |} ]; d_post := []; d_fin := [];
             d_vars := []; d_prio := 0%Z; d_name := None |}, w_rules, w_prog_fmt.
   eexists. split; [intros e []|]. split; [vm_compute; reflexivity|]. split; [vm_compute; reflexivity|]. vm_compute. discriminate.
 Qed.
